@@ -291,6 +291,12 @@ func (p *sparser) typeText() string {
 		v := p.typeText()
 		return "map[" + k + "]" + v
 	}
+	// package path segments: x/nodes/types.Validator
+	for p.isOp("/") {
+		p.next()
+		t2 := p.next()
+		s += "/" + t2.text
+	}
 	if p.isOp(".") {
 		p.next()
 		t2 := p.next()
